@@ -3,6 +3,7 @@ package main
 import (
 	"go/ast"
 	"go/token"
+	"strings"
 )
 
 // inspectFor calls f(cond, bound) for every `for ... ; i < N ; ...` loop whose bound N is constant.
@@ -168,4 +169,82 @@ func (p *pkg) assignedExprSel(fn, lhs string) string {
 		fail("%s.%s: no assignment to %s", p.name, fn, lhs)
 	}
 	return res
+}
+
+// skeleton: the top-level statements of fn in source order, each reduced to its kind and the calls it contains:
+// `if <cond> {return}` / `if <cond> {…}`, `for {calls}`, `x := call`, `call`, `return`. Pins WHERE in a function an error is
+// checked relative to the calls around it (a call order alone does not).
+func (p *pkg) skeleton(fn string, interesting ...string) string {
+	fd := p.findFunc(fn)
+	if fd == nil {
+		fail("skeleton: function %s.%s not found", p.name, fn)
+		return "?"
+	}
+	want := func(name string) bool {
+		if len(interesting) == 0 {
+			return true
+		}
+		for _, s := range interesting {
+			if strings.HasSuffix(name, s) {
+				return true
+			}
+		}
+		return false
+	}
+	callsIn := func(n ast.Node) []string {
+		var cs []string
+		ast.Inspect(n, func(x ast.Node) bool {
+			if _, ok := x.(*ast.FuncLit); ok {
+				return false
+			}
+			if ce, ok := x.(*ast.CallExpr); ok && want(exprString(ce.Fun)) {
+				cs = append(cs, exprString(ce.Fun))
+			}
+			return true
+		})
+		return cs
+	}
+	hasReturn := func(b *ast.BlockStmt) bool {
+		for _, s := range b.List {
+			if _, ok := s.(*ast.ReturnStmt); ok {
+				return true
+			}
+		}
+		return false
+	}
+	var out []string
+	for _, st := range fd.Body.List {
+		switch x := st.(type) {
+		case *ast.IfStmt:
+			t := "if " + oneLine(exprString(x.Cond))
+			if x.Init != nil {
+				if cs := callsIn(x.Init); len(cs) > 0 {
+					t = "if " + strings.Join(cs, ",") + "; " + oneLine(exprString(x.Cond))
+				}
+			}
+			if hasReturn(x.Body) {
+				t += " {return}"
+			} else if cs := callsIn(x.Body); len(cs) > 0 {
+				t += " {" + strings.Join(cs, ",") + "}"
+			} else {
+				t += " {}"
+			}
+			out = append(out, t)
+		case *ast.ForStmt, *ast.RangeStmt:
+			if cs := callsIn(x); len(cs) > 0 {
+				out = append(out, "for {"+strings.Join(cs, ",")+"}")
+			}
+		case *ast.ReturnStmt:
+			if cs := callsIn(x); len(cs) > 0 {
+				out = append(out, "return "+strings.Join(cs, ","))
+			} else {
+				out = append(out, "return")
+			}
+		default:
+			if cs := callsIn(x); len(cs) > 0 {
+				out = append(out, strings.Join(cs, ","))
+			}
+		}
+	}
+	return strings.Join(out, " ; ")
 }
